@@ -27,7 +27,7 @@ ASSUMPTIONS = [
     "margins in the documented boxes; rectangles with end points of magnitude 1e-3..5",
 ]
 REQUIRED_COUNTERS = ["rectangles", "fast_vs_general", "oracle_comparisons", "additivity_checks", "margin_checks",
-                     "subset_checks", "inverse_roundtrips", "instance_interleavings", "rectangles_starting_at_0", "signed_zero_end_points", "copula_changed_on_a_used_model", "implied_density_integrals"]
+                     "subset_checks", "inverse_roundtrips", "instance_interleavings", "rectangles_starting_at_0", "signed_zero_end_points", "copula_changed_on_a_used_model", "implied_density_integrals", "integer_end_points"]
 MIN_NONTRIVIAL = {"quick": 100, "thorough": 1500}
 THOROUGH_ROUNDS = 10      # the thorough tier runs the generators this many times (different seeds)
 
@@ -207,6 +207,23 @@ def run_case(case, R):
         if again != got and not (abs(again - got) <= 1e-13 * (abs(got) + 1e-300)):
             R.violation("mass-depends-on-instance-history", f"{label}: mass({a}, {b}) = {got!r} on a used instance, {again!r} on a fresh one", wit)
             break
+    # end points written as integers (Python int, numpy integer): the same rectangle
+    int_q = [(a, b, got) for (a, b, got) in log if all(math.isfinite(x) and math.isfinite(y) for x, y in zip(a, b))][:3]
+    for a, b, got in int_q:
+        k = int(rng.integers(d))
+        ai, bi = list(a), list(b)
+        ai[k], bi[k] = (-2, -1) if b[k] < 0 else ((1, 2) if a[k] > 0 else (-1, 1))
+        if rng.random() < 0.5:
+            ai[k], bi[k] = np.int64(ai[k]), np.int64(bi[k])
+        af, bf = [float(x) for x in ai], [float(x) for x in bi]
+        try:
+            vi, vf = float(m1.mass(ai, bi)), float(m1.mass(af, bf))
+        except Exception as exc:  # noqa: BLE001
+            R.violation(f"mass-raises-{d}d-integer-end-point", f"{label}: mass({ai}, {bi}) with integer end points raises {type(exc).__name__}: {exc}", wit)
+            break
+        R.hit("integer_end_points")
+        if vi != vf and not (abs(vi - vf) <= 1e-13 * abs(vf)):
+            R.violation(f"mass-depends-on-the-type-of-an-end-point-{d}d", f"{label}: mass({ai}, {bi}) = {vi!r} with integer end points, {vf!r} with floats", wit)
     # an end point at zero written -0.0 (the result of -x, of mirroring a grid, of rounding a tiny negative number) is the same end point:
     # same mass, whichever of the two is asked first on an instance
     if finite[0] or cm["copula"]["kind"] != "independent":
